@@ -54,19 +54,22 @@ def run(res, proofs_ok, proofs_why):
     cfg, binary = _shm.run_property("C02", res, proofs_ok, proofs_why, extra_part=extra)
     if cfg is None:
         return
-    body = ("From CB Require Import SeqlockInv SeqlockRA.\nFrom CB.Properties Require Import C02.\n"
+    body = ("From CB Require Import SeqlockInv GenCyc SeqlockRA.\nFrom CB.Properties Require Import C02.\n"
             "Theorem current_cfg_safe : safe_cfg current_cfg = true.\nProof. vm_compute. reflexivity. Qed.\n"
-            "(* the general theorem instantiated with the configuration measured from the running code *)\n"
+            "(* the general theorems instantiated with the configuration measured from the running code, for every\n"
+            "   record function RF (what the daemon publishes) *)\n"
+            "Section S.\nContext {RF : RecFun}.\n"
             "Theorem C02_for_the_running_code : forall ts m o, Forall real_token ts ->\n"
             "  m_run (m_init current_cfg) ts = (m, o) -> (Z.of_nat (m_nrec m) < 32767)%Z ->\n"
             "  forall j ret rec, In (ORet j ret rec) o -> ret <> RetErr ->\n"
             "    rec = repeat 0%Z (c_cells current_cfg) \\/\n"
-            "    exists a q e, (0 < a)%nat /\\ ev (w_log (m_w m)) q = Some e /\\ e_kind e = KEven /\\ e_att e = a /\\ rec = rec_of (c_cells current_cfg) a.\n"
+            "    exists a q e, (0 < a)%nat /\\ ev (w_log (m_w m)) q = Some e /\\ e_kind e = KEven /\\ e_att e = a /\\ rec = recf (c_cells current_cfg) a.\n"
             "Proof. intros ts m o. apply (C02_RA current_cfg ts m o current_cfg_safe). Qed.\n"
-            "Definition C02_window_for_the_running_code := fun ts m o => C02_RA_window current_cfg ts m o current_cfg_safe.\n"
-            "Check C02_window_for_the_running_code : forall ts m o, Forall real_token ts -> m_run (m_init current_cfg) ts = (m, o) ->\n"
+            "Theorem C02_window_for_the_running_code : forall ts m o, Forall real_token ts -> m_run (m_init current_cfg) ts = (m, o) ->\n"
             "  run_windows (m_init current_cfg) ts -> forall j ret rec, In (ORet j ret rec) o -> ret <> RetErr ->\n"
             "  rec = repeat 0%Z (c_cells current_cfg) \\/ published current_cfg (w_log (m_w m)) rec.\n"
+            "Proof. intros ts m o. apply (C02_RA_window current_cfg ts m o current_cfg_safe). Qed.\n"
+            "End S.\n"
             "Print Assumptions C02_for_the_running_code.\nPrint Assumptions C02_window_for_the_running_code.\n")
     ok, log = _shm.current_obligation(cfg, "C02", body)
     res.oblige("Current_C02.v: safe_cfg current_cfg = true (release fence after the odd store, acquire fence before the re-load, "
